@@ -142,7 +142,7 @@ package jobs
 //@   modifies LogFailingEntityHandler.count, []interface{}
 
 //@ unit (*wrappedSink).processEntities
-//@   prop C17
+//@   prop C17 C11
 //@   requires w != nil && len(w.failingEntityHandlers) == 1
 //@   requires MaxItemsExceededError != nil
 //@   requires [budget-open] $hmax <= 0 || $hcount < $hmax
